@@ -1,1 +1,230 @@
-// harness module for C08 (not written yet)
+// Verification harness for C08 (hold/keepalive timing), compiled into rustybgpd's unit-test binary
+// only with `--cfg osrg_rustybgp_verif` and `--cfg verif_c08` (or verif_all).  Grand-child of
+// `crate::event`, so it reaches the private `PeerSession` internals.
+//
+// One entry point serves both kinds of C08 case lines:
+//
+//   (case (cfg ..) (evs ..))   timed FSM histories: handled by `run_case_c08` of the FSM harness
+//                              (harness/daemon/fsm.rs, re-included below as `fsm_ctx::h`; it uses
+//                              only the `pub(crate)` API of `crate::fsm`).  Its timer bookkeeping is
+//                              a transcription of `PeerSession::apply_outputs`.
+//   (probe <out>*)             timer probe: ties that transcription to the real code.  A REAL
+//                              `PeerSession` is built (`add_peer` + `accept_connection` on a
+//                              loopback TCP pair), the REAL `apply_outputs` is called once with the
+//                              given outputs, and for each of the two timer collections
+//                              (`holdtime_futures`, `keepalive_futures`) the harness reports
+//                                (a) whether `.next()` - exactly what `run_select` polls - becomes
+//                                    ready within 30 ms of real time (`fires` / `quiet`), and
+//                                (b) the armed deadline: `Sleep::deadline() - now` rounded to whole
+//                                    seconds, `far` when > 10^8 s (tokio caps `sleep(u64::MAX s)` at
+//                                    about 30 years = 9.46e8 s), `empty` when the collection has no
+//                                    element (its `.next()` is then ready at once with `None`).
+//                              Observation: (probe-obs (hold quiet|fires <armed>) (ka quiet|fires <armed>)).
+//                              Model side: `Timed.probe`; oracle: `TimedSpec.probeCheck`.
+//
+// Copied from `mod tests` of event/mod.rs (private there): make_global, make_tables,
+// default_peer_params, loopback_pair.
+#![allow(dead_code)]
+
+use super::super::*;
+
+#[path = "/verif/harness/common/sexp.rs"]
+mod sexp;
+use sexp::Term;
+
+/// Name space the FSM harness expects from its `use super::*` (it is written as a child of
+/// `crate::fsm`): the `pub(crate)` items of `crate::fsm` plus that file's own imports.
+mod fsm_ctx {
+    pub(crate) use crate::fsm::*;
+    pub(crate) use fnv::FnvHashMap;
+    pub(crate) use rustybgp_packet::bgp::{self, Capability, Family, HoldTime};
+    #[path = "/verif/harness/daemon/fsm.rs"]
+    pub(crate) mod h;
+}
+
+fn make_global() -> GlobalHandle {
+    let (tx, _rx) = mpsc::unbounded_channel();
+    let (bfd_tx, _bfd_rx) = mpsc::unbounded_channel();
+    let mut g = Global::new(tx, bfd_tx);
+    g.asn = 65001;
+    g.router_id = Ipv4Addr::new(1, 0, 0, 1);
+    Arc::new(tokio::sync::RwLock::new(g))
+}
+
+fn make_tables() -> TableHandle {
+    Arc::new(TableManager::new(1))
+}
+
+fn default_peer_params(remote_addr: IpAddr) -> PeerParams {
+    PeerParams {
+        remote_addr,
+        remote_port: Global::BGP_PORT,
+        expected_remote_asn: 0,
+        local_asn: 0,
+        passive: false,
+        rs_client: false,
+        route_reflector: RouteReflectorConfig::default(),
+        delete_on_disconnected: false,
+        admin_down: false,
+        state: SessionState::Idle,
+        holdtime: PeerParams::DEFAULT_HOLD_TIME,
+        connect_retry_time: PeerParams::DEFAULT_CONNECT_RETRY_TIME,
+        multihop_ttl: None,
+        ttl_security: None,
+        password: None,
+        families: FnvHashMap::default(),
+        send_max: FnvHashMap::default(),
+        prefix_limits: FnvHashMap::default(),
+        graceful_restart: None,
+        llgr: None,
+        bfd_config: None,
+        neighbor_interface: None,
+        bind_interface: None,
+        export_policy: None,
+    }
+}
+
+async fn loopback_pair() -> (tokio::net::TcpStream, tokio::net::TcpStream) {
+    let listener = tokio::net::TcpListener::bind("127.0.0.1:0").await.unwrap();
+    let addr = listener.local_addr().unwrap();
+    let (client, server) = tokio::join!(tokio::net::TcpStream::connect(addr), listener.accept(),);
+    (client.unwrap(), server.unwrap().0)
+}
+
+/// Outputs a probe case may contain (`TimedSpec.probeOut`): the task carries on after them and
+/// they need no session context.
+fn parse_probe_out(t: &Term) -> Option<crate::fsm::PeerFsmOutput> {
+    use crate::fsm::{Output, PeerFsmOutput, Role, State};
+    let conn = |o| Some(PeerFsmOutput::Connection(Role::Passive, o));
+    match t.head() {
+        Some("set-hold") => match t.tagged("set-hold") {
+            Some([n]) => conn(Output::SetHoldTimer(n.as_u64()?)),
+            _ => None,
+        },
+        Some("set-ka") => match t.tagged("set-ka") {
+            Some([n]) => conn(Output::SetKeepaliveTimer(n.as_u64()?)),
+            _ => None,
+        },
+        Some("state") => match t.tagged("state") {
+            Some([s]) => conn(Output::StateChanged(match s.as_atom()? {
+                "idle" => State::Idle,
+                "connect" => State::Connect,
+                "active" => State::Active,
+                "opensent" => State::OpenSent,
+                "openconfirm" => State::OpenConfirm,
+                "established" => State::Established,
+                _ => return None,
+            })),
+            _ => None,
+        },
+        _ => match t.as_atom()? {
+            "send-keepalive" => conn(Output::SendMessage(bgp::Message::Keepalive)),
+            "stop-active-connect" => Some(PeerFsmOutput::StopActiveConnect),
+            _ => None,
+        },
+    }
+}
+
+const FAR_SECS: u128 = 100_000_000;
+
+fn armed_t(fu: &FuturesUnordered<tokio::time::Sleep>, now: tokio::time::Instant) -> Term {
+    let fu = Pin::new(fu);
+    let mut it = fu.iter_pin_ref();
+    let Some(s) = it.next() else {
+        return Term::atom("empty");
+    };
+    if it.next().is_some() {
+        return Term::atom("multi");
+    }
+    let d = s.deadline().saturating_duration_since(now);
+    let secs = (d.as_millis() + 500) / 1000;
+    if secs > FAR_SECS {
+        Term::atom("far")
+    } else {
+        Term::nat(secs as u64)
+    }
+}
+
+async fn run_probe(outs: Vec<crate::fsm::PeerFsmOutput>) -> String {
+    let global = make_global();
+    let tables = make_tables();
+    let (client, server) = loopback_pair().await;
+    let remote_addr = client.local_addr().unwrap().ip();
+    {
+        let mut g = global.write().await;
+        g.add_peer(default_peer_params(remote_addr), None).unwrap();
+    }
+    let Some(mut sess) =
+        accept_connection(&global, &tables, server, crate::fsm::Role::Passive).await
+    else {
+        return "(harness-no-session)".into();
+    };
+    let dummy: SocketAddr = "127.0.0.1:179".parse().unwrap();
+    let (step, _effects) = sess.apply_outputs(outs, dummy, dummy).await;
+    if !matches!(step, Step::Continue) {
+        return "(probe-terminated)".into();
+    }
+    // (b) armed deadlines, read without polling
+    let now = tokio::time::Instant::now();
+    let h_armed = armed_t(&sess.holdtime_futures, now);
+    let k_armed = armed_t(&sess.keepalive_futures, now);
+    // (a) what run_select polls; done last because a completed sleep is consumed by the poll
+    let d = Duration::from_millis(30);
+    let (h, k) = tokio::join!(
+        tokio::time::timeout(d, sess.holdtime_futures.next()),
+        tokio::time::timeout(d, sess.keepalive_futures.next()),
+    );
+    let fq = |ready: bool| Term::atom(if ready { "fires" } else { "quiet" });
+    let _ = (&client, &tables);
+    Term::tag(
+        "probe-obs",
+        vec![
+            Term::tag("hold", vec![fq(h.is_ok()), h_armed]),
+            Term::tag("ka", vec![fq(k.is_ok()), k_armed]),
+        ],
+    )
+    .to_string()
+}
+
+fn run_line(rt: &tokio::runtime::Runtime, line: &str) -> String {
+    let Some(t) = Term::parse(line) else {
+        return "(bad-case)".into();
+    };
+    if t.head() == Some("probe") {
+        let Some(args) = t.as_list() else {
+            return "(bad-case)".into();
+        };
+        let mut outs = Vec::new();
+        for a in &args[1..] {
+            match parse_probe_out(a) {
+                Some(o) => outs.push(o),
+                None => return "(bad-case)".into(),
+            }
+        }
+        return rt.block_on(run_probe(outs));
+    }
+    fsm_ctx::h::run_case_c08(line)
+}
+
+#[test]
+fn verif_main() {
+    let (Ok(prop), Ok(inp), Ok(out)) = (
+        std::env::var("VERIF_PROP"),
+        std::env::var("VERIF_IN"),
+        std::env::var("VERIF_OUT"),
+    ) else {
+        return; // not invoked by /verif/check
+    };
+    if prop != "C08" {
+        return;
+    }
+    let rt = tokio::runtime::Builder::new_current_thread()
+        .enable_all()
+        .build()
+        .unwrap();
+    std::panic::set_hook(Box::new(|_| {}));
+    sexp::run_lines(&inp, &out, |l| {
+        std::panic::catch_unwind(std::panic::AssertUnwindSafe(|| run_line(&rt, l)))
+            .unwrap_or_else(|_| "(panic)".into())
+    });
+}
